@@ -70,6 +70,16 @@ Proof.
 Qed.
 Print Assumptions C04_partial_request_is_exactly_the_missing_seqs.
 
+(* the hypotheses of the composition are met by reachable states: the requester applied
+   versions 1-2 and 5 of actor 7 (so 3-4 are needed), the server applied 1-5 *)
+Example C04_composition_nonvacuous :
+  let bA := st_bv (fst (bstep (fst (bstep bstate_init (OpInsert [(1, 2)]))) (OpInsert [(5, 5)]))) in
+  let bB := st_bv (fst (bstep bstate_init (OpInsert [(1, 5)]))) in
+  inv_b bA (needed bA) = true /\ inv_b bB (needed bB) = true /\
+  classify bB 3 = Held /\ classify bA 3 = Needed /\ classify bA 9 = Beyond /\
+  compute_available_needs (ss_of 1 7 (sync_actor bA)) (ss_of 2 7 (sync_actor bB)) = [(7, [Full 3 4])].
+Proof. vm_compute. repeat split; reflexivity. Qed.
+
 Example C04_nonvacuous :
   let us := mkSstate 1 [(2, 10)] [(2, [(3, 5)])] [(2, [(7, [(0, 2)])])] in
   let other := mkSstate 9 [(2, 13)] [(2, [(4, 4)])] [(2, [(7, [(0, 0); (5, 9)])])] in
